@@ -3,6 +3,10 @@
 set -e
 cd "$(dirname "$0")"
 mkdir -p .work evidence replays
+export GOFLAGS=-mod=mod GOPROXY=off GOSUMDB=off GOTOOLCHAIN=local
+cp /repo/go.sum go/go.sum
+# the fact tables the C16 / C18 theorems are about are regenerated from /repo's current source
+python3 tools/regen_facts.py
 (cd lean && lake build && lake build $(ls ErrModel/Props/*.lean | sed "s#/#.#g; s#\.lean\$##"))
 export GOFLAGS=-mod=mod GOPROXY=off GOSUMDB=off GOTOOLCHAIN=local
 cp /repo/go.sum go/go.sum
